@@ -408,6 +408,9 @@ void jv_wk_sk_init(void* sk, void* barray) {
     s->b = static_cast<wk::FreeSlot*>(barray);
 }
 void* jv_wk_sk_barray(const void* sk) { return static_cast<const wk::SecretKey*>(sk)->b; }
+/* what the Go wrapper does after set_length: attach a freshly allocated array, touch nothing else */
+void jv_wk_sk_set_barray(void* sk, void* barray) { static_cast<wk::SecretKey*>(sk)->b = static_cast<wk::FreeSlot*>(barray); }
+void jv_wk_params_set_harray(void* p, void* harray) { static_cast<wk::Params*>(p)->h = static_cast<G1*>(harray); }
 void jv_wk_sk_set_l(void* sk, int l) { static_cast<wk::SecretKey*>(sk)->l = l; }
 void jv_wk_sk_set_bidx(void* sk, int i, uint32_t idx) { static_cast<wk::SecretKey*>(sk)->b[i].idx = idx; }
 
